@@ -404,10 +404,7 @@ pub fn push_arguments_from_peers_args(peers_args: &PeersArgs, args: &mut Vec<OsS
     if peers_args.local {
         args.push(OsString::from("--local"));
     }
-    // `--peer` and `--network-contacts-url` conflict with `--first` on the antnode command line (a
-    // genesis node ignores them), so they are not written for a genesis node: with them the node
-    // would refuse to start. They can get here through the ANT_PEERS environment variable.
-    if !peers_args.first && !peers_args.addrs.is_empty() {
+    if !peers_args.addrs.is_empty() {
         let peers_str = peers_args
             .addrs
             .iter()
@@ -417,7 +414,7 @@ pub fn push_arguments_from_peers_args(peers_args: &PeersArgs, args: &mut Vec<OsS
         args.push(OsString::from("--peer"));
         args.push(OsString::from(peers_str));
     }
-    if !peers_args.first && !peers_args.network_contacts_url.is_empty() {
+    if !peers_args.network_contacts_url.is_empty() {
         args.push(OsString::from("--network-contacts-url"));
         args.push(OsString::from(
             peers_args
